@@ -41,5 +41,33 @@ Aligned(V) == \A c \in V.cores, l \in V.lines : ~V.mis[c][l]
 (* per-line lock counters never go negative *)
 SemNonNegative(V) == \A l \in V.lines : V.semr[l] >= 0 /\ V.semw[l] >= 0
 
+(* ---- legal steps: how the coherence state of one (core, line) may change from one ---- *)
+(* ---- observed state V to the next W (an action property on the design model, and ---- *)
+(* ---- a check on consecutive logged implementation states)                         ---- *)
+(* the protocol state rises (I->S, I->M, S->M) only for a core that has a request on   *)
+(* the line in progress, and falls to Invalid only through a snoop command to that     *)
+(* core; Modified never becomes Shared directly                                        *)
+LegalState(V, W, c, l) ==
+  LET a == V.st[c][l] b == W.st[c][l] IN
+  \/ a = b
+  \/ (b > a /\ V.busy[c][l])
+  \/ (b = 0 /\ a # 0 /\ V.cmd[c][l] # 0)
+(* a line enters L1 only for a request in progress and leaves it only through a snoop  *)
+(* command or when the request that fetched it is aborted                              *)
+LegalPresence(V, W, c, l) ==
+  LET a == V.cnt[c][l] b == W.cnt[c][l] IN
+  \/ a = b
+  \/ (b > a /\ V.busy[c][l])
+  \/ (b < a /\ (V.cmd[c][l] # 0 \/ V.busy[c][l]))
+(* lock counters move by what the requests in progress and completing can explain *)
+LegalSem(V, W, l) ==
+  LET n == Cardinality(V.cores) IN
+  /\ W.semr[l] - V.semr[l] \in (0 - n) .. n
+  /\ W.semw[l] - V.semw[l] \in {-1, 0, 1}
+  /\ (W.semw[l] > 0 => W.semw[l] = 1)
+LegalStep(V, W) ==
+  /\ \A c \in V.cores, l \in V.lines : LegalState(V, W, c, l) /\ LegalPresence(V, W, c, l)
+  /\ \A l \in V.lines : LegalSem(V, W, l)
+
 AllClauses(V) == SWMR(V) /\ SharedClean(V) /\ Presence(V) /\ NoDuplicate(V) /\ Aligned(V) /\ SemNonNegative(V)
 =======================================================================
